@@ -215,6 +215,12 @@ def run_case(case, tier):
                         r1, r2 = (h["aid"][1], h["aid"][2], h["aid"][3]), (q["aid"][1], q["aid"][2], q["aid"][3])
                         if r1 != r2 and r1 in res and r2 in res:
                             cands.append((r1, r2))
+                    elif q is not None and q["charge"] * h["charge"] < 0 and _interaction_type(h["type"], q["type"]) == "I":
+                        # a hydrogen-bonded acid-base pair that the iteration settles (ASP-HIS, TYR-LYS ...)
+                        r1, r2 = (h["aid"][1], h["aid"][2], h["aid"][3]), (q["aid"][1], q["aid"][2], q["aid"][3])
+                        if r1 != r2 and r1 in res and r2 in res:
+                            cands.append((r1, r2))
+                            cands.append((r1, r2))
         if cands:
             r1, r2 = rng.choice(cands)
             others = [r for r in res if r not in (r1, r2)]
@@ -242,8 +248,9 @@ def run_case(case, tier):
     arg = ",".join(util.res_arg(r) for r in L + ghosts)
     xo = util.neutral_options(rng, families=("display", "grid", "protonation", "keep"), classes=classes)
     free = obs.run_single(text, xo)
-    lim = obs.run_single(text, ["-i", arg] + xo)
+    lim = obs.run_single(text, ["-i", arg] + xo, keep_mol=True)
     counts["pipeline_runs"] = 2
+    lim_mol, lim.mol = lim.mol, None
     desc.update({"atoms": len(pdbio.atoms(recs)), "residues": len(res), "listed": len(L), "ghosts": len(ghosts),
                  "arg_head": arg[:60], "exc": lim.exc})
     if free.exc or lim.exc:
@@ -340,6 +347,39 @@ def run_case(case, tier):
                                 cname, g["label"], g["model_pka"], tot, ptn["label"], ptn["model_pka"], back)})
             if pl:
                 classes.append("partner-determinants-compared")
+    # (c') salt bridges into the unlisted part: a listed acid (base) whose hydrogen bond to an unlisted base
+    # (acid) the program's own geometry function rates above zero holds that hydrogen bond, whenever the final
+    # pKa of the acid lies well below that of the base (these pairs are settled by the iteration, which adds
+    # the pair's terms exactly when pKa(acid) < pKa(base))
+    if lim_mol is not None:
+        excl = set(util.parse_cfg().get("exclude_sidechain_interactions", []))
+        conf = lim_mol.conformations[lim_mol.conformation_names[0]]
+        gl = list(conf.groups)
+        for i, g1 in enumerate(gl):
+            for g2 in gl[:i]:
+                if g1.titratable == g2.titratable or g1.charge * g2.charge >= 0 or g1.type == "ION" or g2.type == "ION":
+                    continue
+                if g2 in g1.covalently_coupled_groups or _interaction_type(g1.type, g2.type) != "I":
+                    continue
+                listed, other = (g1, g2) if g1.titratable else (g2, g1)
+                if listed.coupled_titrating_group is not None or other.coupled_titrating_group is not None:
+                    continue
+                try:
+                    hb = lim_mol.version.hydrogen_bond_interaction(g1, g2)
+                except Exception:
+                    hb = None
+                if not hb or hb <= 0.001 or listed.residue_type in excl:
+                    continue
+                acid, base = (listed, other) if listed.charge < 0 else (other, listed)
+                if not acid.pka_value + 2.0 < base.pka_value:
+                    continue
+                counts["salt_bridges_into_unlisted_part"] = counts.get("salt_bridges_into_unlisted_part", 0) + 1
+                # (the partner object of an iterated determinant is the solver's stand-in for the group: same atom)
+                got = sum(d.value for d in listed.determinants["sidechain"] if getattr(d.group, "atom", None) is other.atom)
+                if abs(abs(got) - hb) > 1e-6:
+                    viol.append({"cls": "unlisted-partner-hbond-lost", "msg": "%s (pKa %.2f) and unlisted %s (pKa %.2f): hydrogen bond %.4f by the program's geometry, side-chain determinant held %+.4f" % (
+                        listed.label, listed.pka_value, other.label, other.pka_value, hb, got)})
+        lim_mol = None
     # (d) all residues == no option
     if mode == "all" and not ghosts:
         diffs = obs.compare_runs(free, lim, tol=1e-7, text=True)
